@@ -884,18 +884,18 @@ def files_case_to_coq(case, obs) -> str:
             f"{glist(obs['passes'], gnl)} {gbool(obs['result'])})")
 
 
-def guard_cases(mods, tier: str, only_all_valid: bool = False):
+def guard_cases(mods, tier: str, only_all_valid: bool = False, n: int = 3):
     """fault injection into processing.fix / chain / pattern-substitution style fix(max_iter=1):
     the rule proposes a whole-text replacement, is_valid_python and the string restoration are
     scripted; exhaustive over candidate tables 3->3 x validity masks x restore behaviours."""
     core, processing = mods["core"], mods["processing"]
-    texts = ["a0\n", "a1\n", "a2\n"]
+    texts = [f"a{i}\n" for i in range(n)]
     tb = tables.get()
     restores = {
-        "id": [[0, 1, 2]] * 3,
-        "to_src": [[0, 0, 0], [1, 1, 1], [2, 2, 2]],
-        "rot": [[1, 2, 0]] * 3,
-        "mixed": [[0, 2, 1], [2, 1, 0], [1, 0, 2]],
+        "id": [list(range(n))] * n,
+        "to_src": [[i] * n for i in range(n)],
+        "rot": [[(i + 1) % n for i in range(n)]] * n,
+        "mixed": [[(i * 2 + k) % n for i in range(n)] for k in range(n)],
     }
     saved = (core.is_valid_python, processing._substitute_original_strings,
              processing._substitute_original_fstrings)
@@ -914,25 +914,27 @@ def guard_cases(mods, tier: str, only_all_valid: bool = False):
     processing._substitute_original_strings = fake_restore
     processing._substitute_original_fstrings = lambda o, n: n
     try:
-        for cand in itertools.product(range(3), repeat=3):
+        for cand in itertools.product(range(n), repeat=n):
             def rule(source, _c=cand):
                 i = texts.index(source)
                 j = _c[i]
                 if j != i:
                     yield (core.Range(0, len(source)), texts[j])
-            for valid in itertools.product((False, True), repeat=3):
+            for valid in itertools.product((False, True), repeat=n):
                 if only_all_valid and not all(valid):
                     continue
                 for rname, rt in restores.items():
                     if only_all_valid and rname != "id":
                         continue
                     script.update(valid=valid, restore=rt)
-                    for start in range(3):
-                        for which, mi in (("fix1", 1), ("fix", tb["FIX_MAX_ITER"]), ("chain", tb["CHAIN_MAX_ITER"])):
+                    for start in range(n):
+                        for which, mi in (("fix1", 1), ("fix4", 4), ("fix", tb["FIX_MAX_ITER"]), ("chain", tb["CHAIN_MAX_ITER"])):
                             try:
                                 with common.quiet():
                                     if which == "fix1":
                                         got = processing.fix(rule, max_iter=1)(texts[start])
+                                    elif which == "fix4":
+                                        got = processing.fix(rule, max_iter=4)(texts[start])
                                     elif which == "fix":
                                         got = processing.fix(rule)(texts[start])
                                     else:
